@@ -285,9 +285,9 @@ def build_rope(u, s):
                       "let ghost b0 = source_code.bytes();\n"
                       "let ghost pos0 = inner_pos as int;")
     s.at("rope", "before", r"source_code\.append\(slice\);", "rope.hint.fits1", "hint",
-         "proof { assert(splice(ib, rs.skip(i), pos0).len() >= slice.bytes().len() + r.content.len()); }", regex=True, nth=1)
+         "proof { assert(splice(ib, rs.skip(i), pos0).len() >= slice.bytes().len() + r.content.len()); }", regex=True, nth=1, tags=F)
     s.at("rope", "before", r"source_code\.add\(&replacement\.content\);", "rope.hint.fits2", "hint",
-         "proof { assert(splice(ib, rs.skip(i), pos0).len() >= (if pos0 < r.start { min2(r.start as int, ib.len() as int) - pos0 } else { 0 }) + r.content.len()); assert(replacement.content@ == self.replacements@[idx[i]].content@); }", regex=True, nth=1)
+         "proof { assert(splice(ib, rs.skip(i), pos0).len() >= (if pos0 < r.start { min2(r.start as int, ib.len() as int) - pos0 } else { 0 }) + r.content.len()); assert(replacement.content@ == self.replacements@[idx[i]].content@); }", regex=True, nth=1, tags=F)
     s.at("rope", "before", r"source_code\.add\(&replacement\.content\);", "rope.hint.mid", "hint",
          "proof { assert(source_code.bytes() =~= b0 + (if pos0 < r.start { ib.subrange(pos0, min2(r.start as int, ib.len() as int)) } else { Seq::<u8>::empty() })); }",
          regex=True, tags=F, nth=1)
@@ -301,7 +301,10 @@ def build(u):
         u.use(x)
     u.raw("broadcast use {vstd::string::group_string_axioms, vstd::utf8::group_utf8_lib};", ("glue", NAME))
     u.spec("splice_spec.rs")
-    u.raw(GLUE_ROPE, ("glue", NAME))
+    # C05's view carries rope_core's length preconditions (discharged from the functional invariant); C17's view has no
+    # functional clauses, so there "the rope's total length fits usize" stays an assumption of add/append (listed in evidence)
+    u.raw(GLUE_ROPE, ("glue", NAME), tags=["C05"])
+    u.raw(GLUE_ROPE.replace(", old(self).bytes().len() + value.bytes().len() <= usize::MAX", "").replace(", old(self).bytes().len() + value.spec_bytes().len() <= usize::MAX", ""), ("glue", NAME), tags=["C17"])
     u.raw(GLUE_TRAIT, ("glue", NAME))
     e = u.item("src/replace_source.rs", "pub enum ReplacementEnforce {")
     e.rule("D2", r"[ \t]*#\[default\]\n", "")
